@@ -186,6 +186,8 @@ class Explorer:
                 kw[n] = bound[n]
             elif extra and n in extra:
                 kw[n] = extra[n]
+            elif n == 'self':
+                kw[n] = None        # contract of a module-level function
             else:
                 raise InterpError(f'{fn.qualname}: contract parameter {n} not among target parameters {list(bound)}')
         try:
